@@ -1,6 +1,7 @@
 package main
 
 import (
+	"strings"
 	"fmt"
 	"go/token"
 	"go/types"
@@ -402,6 +403,25 @@ func runC15(c *Ctx) {
 	}
 	r.Floor("W1", "write sites", nsites, 25)
 	r.Floor("W1", "packages with write sites", len(pk), 5)
+	// no output bytes survive a render: RenderTo keeps no buffer in the wrapper (what a failed render left there
+	// would come out in front of the next one)
+	r.Rule("W3", "a renderer keeps no buffered output in its wrapper between renders")
+	nrt := 0
+	for _, fn := range c.LibFuncs() {
+		if fn.Name() != "RenderTo" || fn.Signature.Recv() == nil {
+			continue
+		}
+		nrt++
+		hs := receiverStateHandedOut(c, fn)
+		for _, ef := range hs {
+			r.Check("W3", FuncName(fn), "hands part of the wrapper itself to "+strings.TrimPrefix(ef.What, "opaque:"), ef.At.Pos(), false,
+				"state that lives in the wrapper is filled during a render and can outlive a failed one")
+		}
+		if len(hs) == 0 {
+			r.Check("W3", FuncName(fn), "no buffer or other callee-modified state inside the wrapper", fn.Pos(), true, "")
+		}
+	}
+	r.Floor("W3", "RenderTo methods", nrt, 5)
 	// "without panicking": the code that runs when a write fails (and everything else in the functions that
 	// write) has no reachable panic (C09's R09.P obligations of the functions that hold a write site)
 	r.Rule("W2", "the functions that write cannot panic, on the error path or elsewhere")
